@@ -145,6 +145,17 @@ func (s *state) SetLast(v uint16) {
 		}
 	}
 }
+func (s *state) trySet(v uint32) bool {
+	for {
+		o := atomic.LoadUint32((*uint32)(s))
+		if o&v == v {
+			return false
+		}
+		if atomic.CompareAndSwapUint32((*uint32)(s), o, o|v) {
+			return true
+		}
+	}
+}
 func (s *state) ShutdownWait() bool {
 	return atomic.LoadUint32((*uint32)(s))&stateShutdownWait != 0
 }
